@@ -246,6 +246,9 @@ class HDict(object):
         return "HDict(%s)" % (self.ek if self.items is None else sorted(self.items))
 
 
+ITERIDX = z3.Function("dictiter_idx", StrS, IntS)     # position of a key in the enumeration of a dict loop
+
+
 def fresh(kind, base="v"):
     nm = fresh_name(base)
     if kind == "int":
